@@ -468,7 +468,12 @@ def gen_xcell(seed, tier):
     quota = 150 if tier == "quick" else 1500
     out = []
     for focus in ("waiters", "resolvers"):
-        cs = [c for c in cellcommon.gen(seed, "quick" if tier == "quick" else "thorough", focus) if c.engine in m]
+        # only the thread kinds whose frame cost the C20 cross-check model knows (resolver kinds 0..5, waiter kinds 0..4);
+        # kinds added to the Cell component later (unwinding destruction 1 6, co_await-promise resolver 1 7, call_fn waiter 2 5)
+        # are skipped here until the cost model carries them
+        def known(c):
+            return all(not (o and ((o[0] == 1 and len(o) > 1 and o[1] >= 6) or (o[0] == 2 and len(o) > 1 and o[1] >= 5))) for o in c.ops)
+        cs = [c for c in cellcommon.gen(seed, "quick" if tier == "quick" else "thorough", focus) if c.engine in m and known(c)]
         for c in cs[:quota]:
             out.append(Case(m[c.engine], "x" + focus[0] + c.name, c.ops))
     return out
